@@ -75,6 +75,12 @@ func replayFile(path string) int {
 		var as aliasStats
 		n := names(f.Replay.A, f.Replay.B)
 		aliasedComp(col, &as, 0, n[0][0], n[1][0].typ)
+	case "many":
+		o := names(f.Replay.A)[0]
+		var as aliasStats
+		checkSingle(col, 0, 0, o)
+		nameLawsPlain(col, &as, 0, o, o[:len(o)-1], func() any { return nil })
+		checkNameURI(col, &us, 0, o, "replay")
 	case "wire":
 		checkWire(col, 0, names(f.Replay.A)[0])
 	case "comp-uri":
